@@ -508,13 +508,23 @@ func runC07(cfg hx.Config) error {
 			s = corpus[i]
 		} else {
 			s = g.schema(3, true)
+			// Lazy on top of the schema (the model has Lazy at the top only): once or twice, with the lazy schema's own
+			// Optional()/Nilable() flags
+			if rng.Chance(12) {
+				s = lazy(hx.Pick(rng, []string{"--", "--", "--", "-n", "o-", "on"}), s)
+				if rng.Chance(25) {
+					s = lazy(hx.Pick(rng, []string{"--", "--", "-n", "o-"}), s)
+				}
+			}
 		}
 		text := s.String()
 		if seen[text] {
 			continue
 		}
 		seen[text] = true
-		g.pool = append(g.pool, s)
+		if s.K != "lazy" {
+			g.pool = append(g.pool, s) // a lazy schema is never embedded in a later schema
+		}
 		lv := &live{s: s, text: text, dup: hasDup(s), judged: map[string]bool{}}
 		for _, u := range g.used {
 			if k := liveOf[u]; k != nil {
